@@ -939,6 +939,25 @@ def envelope_reader_rules(m: Bf3Model, chk, pid):
             okw, whyw = False, "output newline translation %s is not undone by universal-newline reading" % show(nl, 2)
     chk.require(okw and len(opens) == 1, P("text-newlines"), fiw.qualname, "open(path, 'w', newline='\\r\\n') <-> open(path, 'r')", "%s:%d" % (fiw.file, fiw.lineno),
                 "the writer's newline translation (CRLF) is one that universal-newline reading maps back to '\\n'", whyw or "expected exactly one open() in the text writer")
+    # both sides decode / encode the text with the same codec (comments are free text): encoding= and errors= must agree
+    def codec(o):
+        kw, a = o.d["kwargs"], o.d["args"]
+        enc = a[3] if len(a) > 3 else kw.get("encoding", NONE)
+        err = a[4] if len(a) > 4 else kw.get("errors", NONE)
+        return tuple(("default" if (t is NONE or (is_const(t) and cval(t) is None)) else (_codec_name(cval(t)) if is_const(t) and isinstance(cval(t), str) else show(t, 3))) for t in (enc, err))
+    ropens = [e for e in res.events if e.kind == "extcall" and e.d["name"] == "open"]
+    codecs_r, codecs_w = sorted({codec(o) for o in ropens}), sorted({codec(o) for o in opens})
+    chk.require(len(ropens) == 1 and len(opens) == 1 and codecs_r == codecs_w, P("text-codec-agreement"), fiw.qualname + " <-> " + fi.qualname, "encoding= / errors= of the two open() calls", "%s:%d" % (fiw.file, fiw.lineno),
+                "writer and reader open a path with the same text codec, so every comment character written is the one read back",
+                "writer opens with (encoding, errors) = %s, reader with %s: non-ASCII comment text does not survive a path round trip" % (codecs_w, codecs_r))
+
+
+def _codec_name(name: str) -> str:
+    import codecs
+    try:
+        return codecs.lookup(name).name
+    except LookupError:
+        return name.lower()
 
 
 def tag_compare_rules(m: Bf3Model, chk, pid):
